@@ -58,9 +58,11 @@ public:
     {
         int mul = 1;
 
+        // one more bit than the largest coefficient of the product needs:
+        // the digits are decoded as signed numbers
         unsigned int N = bit_length(std::min(a.degree() + 1, b.degree() + 1))
                          + bit_length(a.max_abs_coef())
-                         + bit_length(b.max_abs_coef());
+                         + bit_length(b.max_abs_coef()) + 1;
 
         integer_class full = integer_class(1), temp, res;
         full <<= N;
